@@ -43,6 +43,7 @@ from ngo.utils.ast import (
     Predicate,
     TranslationMap,
     collect_ast,
+    collect_binding_information_body,
     global_vars_inside_body,
     is_predicate,
     loc2str,
@@ -435,6 +436,8 @@ class MinMaxAggregator:
         for blit in lits_with_vars:
             if any(var in rule_globals and var not in rest_vars for var in collect_ast(blit, "Variable")):
                 return [rule]  # a variable bound by a literal that stays behind would become local in the chain rules
+        if not rest_vars <= collect_binding_information_body(list(chain(elem.condition, lits_with_vars)))[0]:
+            return [rule]  # a group variable that nothing binds can not be an argument of the chain predicates
         # variables that are used inside but also outside of the aggregate
         rest_vars_sorted: list[AST] = sorted(rest_vars)
         if {NEXT.name, PREV.name}.intersection(var.name for var in collect_ast(rule, "Variable")):
